@@ -322,7 +322,7 @@ fn run_conc(cfg: &ConcCfg, rng: &mut Rng, sid: u64) -> ConcOutcome {
         if let Err(p) = r {
             viol.push(V { props: vec!["C09"], rule: "R4", class: "drop-panicked".into(), detail: p });
         }
-        match await_log(&sh, |st| st.log.iter().filter(|e| matches!(e, Ev::Exit { .. })).count() >= total) {
+        match await_log(&sh, |st| st.n_exit >= total) {
             Ok(()) => {}
             Err(st) => {
                 if st.is_verdict() {
@@ -346,7 +346,7 @@ fn run_conc(cfg: &ConcCfg, rng: &mut Rng, sid: u64) -> ConcOutcome {
             }
         }
     } else {
-        match await_log(&sh, |st| st.log.iter().filter(|e| matches!(e, Ev::Exit { .. })).count() >= total) {
+        match await_log(&sh, |st| st.n_exit >= total) {
             Ok(()) => {}
             Err(st) => {
                 if st.is_verdict() {
@@ -783,7 +783,7 @@ fn window_scenarios(rep: &mut Report, prop: &str, args: &Args, rounds: u64) {
                 let total = sh.count(|e| matches!(e, Ev::Ret { .. })) + 1; // not logged here: use counters instead
                 let _ = total;
                 let want = q.submitted();
-                let _ = await_log(&sh, |st| st.log.iter().filter(|e| matches!(e, Ev::Exit { .. })).count() as u64 >= want);
+                let _ = await_log(&sh, |st| st.n_exit as u64 >= want);
                 let rest = (q.queued(), q.submitted(), q.drained());
                 if rest.0 != 0 || rest.1 != rest.2 {
                     report(rep, V { props: vec!["C15"], rule: "R7", class: "final-counters".into(), detail: format!("at rest after the window: (queued, submitted, drained) = {:?}", rest) }, &sh.log(), name);
@@ -852,7 +852,7 @@ fn window_scenarios(rep: &mut Report, prop: &str, args: &Args, rounds: u64) {
                     }
                     release("queuing.run.taken");
                     let want = 1 + queued.len();
-                    let res = await_log(&sh, |st| st.log.iter().filter(|e| matches!(e, Ev::Exit { .. })).count() >= want);
+                    let res = await_log(&sh, |st| st.n_exit >= want);
                     if let Err(st) = res {
                         if st.is_verdict() {
                             report(rep, V { props: vec!["C08"], rule: "R1", class: "accepted-never-delivered".into(), detail: st.describe() }, &sh.log(), name);
@@ -995,7 +995,7 @@ fn window_scenarios(rep: &mut Report, prop: &str, args: &Args, rounds: u64) {
                 sh.open_all();
                 rep.obs("forced_stop_windows", 1);
                 rep.distinct(&format!("winC|{:?}|{}", cap, &wname[..2]));
-                let res = await_log(&sh, |st| st.log.iter().filter(|e| matches!(e, Ev::Exit { .. })).count() >= accepted)
+                let res = await_log(&sh, |st| st.n_exit >= accepted)
                     .and_then(|_| await_log(&sh, |st| st.log.iter().any(|e| matches!(e, Ev::SinkDrop { .. }))))
                     .and_then(|_| await_no_library_thread());
                 if let Err(st) = res {
@@ -1209,7 +1209,7 @@ fn blocked_case(rep: &mut Report, prop: &str, args: &Args, cs: u64) {
     }
     // everything accepted is delivered, then release
     let total = ok_n as usize + 1;
-    let r = await_log(&sh, |st| st.log.iter().filter(|e| matches!(e, Ev::Exit { .. })).count() >= total);
+    let r = await_log(&sh, |st| st.n_exit >= total);
     drop(q);
     let r2 = r.and_then(|_| await_log(&sh, |st| st.log.iter().any(|e| matches!(e, Ev::SinkDrop { .. })))).and_then(|_| await_no_library_thread());
     if let Err(st) = r2 {
@@ -1308,7 +1308,7 @@ fn droprace_case(rep: &mut Report, prop: &str, args: &Args, cs: u64) {
     if let Some(p) = drop_panicked {
         report(rep, &["C09"], "drop-panicked", p);
     }
-    let r = await_log(&sh, |st| st.log.iter().filter(|e| matches!(e, Ev::Exit { .. })).count() >= accepted);
+    let r = await_log(&sh, |st| st.n_exit >= accepted);
     match r {
         Err(st) if st.is_verdict() => {
             report(rep, &["C09", "C08"], "undelivered-after-last-drop", format!("{} accepted, {} delivered: {}", accepted, sh.count(|e| matches!(e, Ev::Exit { .. })), st.describe()));
